@@ -650,7 +650,13 @@ def execute(sc):
                         idx_batches = []
                         free = list(order)
                         for b in got:
-                            dec = decode_batch(res, sc, corp, b, free, ctx)
+                            try:
+                                dec = decode_batch(res, sc, corp, b, free, ctx)
+                            except (IndexError, RuntimeError, ValueError, TypeError, KeyError) as err:
+                                # the batch cannot even be cut back to its reported sizes in the documented layout
+                                shapes = [tuple(t.shape) if torch.is_tensor(t) else type(t).__name__ for t in (b if isinstance(b, (tuple, list)) else [b])]
+                                res.violate("collate.layout", f"{ctx}: the batch (shapes {shapes}, batch_first={sc['batch_first']}) does not have the documented layout: {type(err).__name__}: {err}", part="layout")
+                                return res
                             if dec is None:
                                 return res
                             for i in dec:
